@@ -115,6 +115,25 @@ func (x *Exec) intrinsic(fn *ssa.Function, name string, args []Value, g *Term, s
 			x.modeled["errors.New: opaque non-nil error"]++
 			return &IfaceV{T: types.Universe.Lookup("error").Type(), V: args[0]}, nil, true
 		}
+	case "math":
+		a, _ := args[0].(*Term)
+		switch short {
+		case "Log2":
+			if a != nil && a.Op == OFpFromUInt {
+				x.modeled["math.Floor(math.Log2(float64(u))) for unsigned integer u>0: index of highest set bit (exact for integers < 2^53; differential self-test)"]++
+				return c.Apply("vx.log2.uint", FP64, a.A[0]), nil, true
+			}
+		case "Floor":
+			if a != nil && a.Op == OApply && a.Name == "vx.log2.uint" {
+				return c.Apply("vx.floorlog2.uint", FP64, a.A[0]), nil, true
+			}
+		}
+	case "sync":
+		switch name {
+		case "(*sync.WaitGroup).Add", "(*sync.WaitGroup).Done", "(*sync.WaitGroup).Wait":
+			x.modeled["sync.WaitGroup: no-op (goroutines inlined sequentially)"]++
+			return nil, nil, true
+		}
 	case "time":
 		switch short {
 		case "Now":
@@ -305,6 +324,19 @@ func (x *Exec) vxIntrinsic(fn *ssa.Function, short string, args []Value, g *Term
 		}
 		x.nondet[nm] = 1
 		x.storeRaw(sl.Base, x.freshSymArr(nm, et, c.Const(64, uint64(n))))
+		return nil
+	case "vxFreshSlice":
+		// vxFreshSlice(name string, p *[]T, n int): *p = fresh uninterpreted slice of length n (n may be symbolic)
+		nm := x.knownStr(args[0], short)
+		iv := args[1].(*IfaceV)
+		et := iv.T.Underlying().(*types.Pointer).Elem().Underlying().(*types.Slice).Elem()
+		n := args[2].(*Term)
+		if _, dup := x.nondet[nm]; dup {
+			x.fail("nondet name used twice: %s", nm)
+		}
+		x.nondet[nm] = 1
+		o := x.newObject(types.NewSlice(et), x.freshSymArr(nm, et, n), nm)
+		x.store(iv.V, &SliceV{Base: &PtrV{Obj: o}, Off: c.Const(64, 0), Len: n, Cap: n}, g)
 		return nil
 	case "vxGhostSet":
 		x.ghost[x.knownStr(args[0], short)] = args[1]
